@@ -161,6 +161,12 @@ def check(ctx):
                detail=None if cex is None else "at start=%(start)d stop=%(stop)d the guards say %%s, the statement says %%s" % cex % (
                    "fallback" if pred(cex) else "in range", "out of range" if spec(cex) else "in range"))
     ctx.exhaustive = True
+    # ------------------------------------------------------------------ R5: a Feature's stored bin is bins(start, end)
+    from .c06 import _r3_bin_provenance
+    n0 = len(ctx.obs)
+    _r3_bin_provenance(ctx)
+    for o in ctx.obs[n0:]:
+        o.rule = "C12.R5"
 
 
 def _witness(r):
